@@ -348,16 +348,22 @@ class Check:
     def coq_eval(self, name, text, timeout=900):
         d = os.path.join(COQ, "cases")
         os.makedirs(d, exist_ok=True)
+        # one file per run: concurrent runs (other seeds, VERIF_REPO worktrees) must not share a path
+        name = "%s_%s_%d" % (re.sub(r"[^A-Za-z0-9_]", "_", name), repo_tag(), os.getpid())
         p = os.path.join(d, name + ".v")
         open(p, "w").write(text)
         t = time.time()
         rc, out = sh(["coqc", "-R", ".", "Qryn", "-w", "-notation-overridden", "cases/%s.v" % name], cwd=COQ, timeout=timeout)
         self.log("coq eval %s rc=%d (%.1fs)" % (name, rc, time.time() - t))
-        for ext in (".vo", ".vok", ".vos", ".glob"):
+        for ext in (".vo", ".vok", ".vos", ".glob", ".v") if rc == 0 else (".vo", ".vok", ".vos", ".glob"):
             try:
                 os.remove(os.path.join(d, name + ext))
             except OSError:
                 pass
+        try:
+            os.remove(os.path.join(d, "." + name + ".aux"))
+        except OSError:
+            pass
         return rc, out
 
     # ---------------------------------------------------------------- OCaml extraction (volume runs)
